@@ -357,7 +357,7 @@ func Run(c *core.Ctx) {
 		}
 		runCase(c, "directed", i, p)
 	}
-	n := c.Pick(60000, 400000)
+	n := c.Pick(60000, 1500000)
 	for i := 0; i < n; i++ {
 		if !c.Take("gen", i) {
 			continue
